@@ -12,6 +12,11 @@ package main
 // preemption; within one process the oldest parked operation is the default and
 // any other order costs one deviation as well).
 //
+// Two further scenarios let one upload of a writer's index file fail while
+// every index counts as "full" (index.Full hook), i.e. preliminary index files
+// are written during the backup as in large repositories: the writer may then
+// fail, but a reader still must not see a snapshot whose data is not indexed.
+//
 // Oracle: the reader command never fails (no faults are injected, the writer
 // only ever adds files), and what `restore latest` wrote equals the content of
 // one of the snapshots that existed at some point (old or new).  The writer
@@ -34,6 +39,7 @@ import (
 	"github.com/restic/restic/internal/data"
 	"github.com/restic/restic/internal/global"
 	"github.com/restic/restic/internal/repository"
+	"github.com/restic/restic/internal/repository/index"
 	"github.com/restic/restic/internal/verifshim/detrand"
 	"github.com/restic/restic/internal/verifshim/gatebe"
 	"github.com/restic/restic/internal/verifshim/oracle"
@@ -57,6 +63,7 @@ type verifC14Exec struct {
 	target             string
 	restore            func()
 	writerMutsAtReader int
+	faulted            bool
 }
 
 func verifC14TreeSig(root string) (string, error) {
@@ -91,6 +98,9 @@ func TestVerif_C14(t *testing.T) {
 	oracle.LowKDF()
 
 	// source directories: old (already backed up) and new (backed up by the writer)
+	// (the source directory is backed up by absolute path: every path component becomes a tree, so the
+	// writer's sequence of backend operations depends on the depth of the scratch directory - the driver
+	// gives shards, confirmation lanes and replays scratch paths of identical shape)
 	src := filepath.Join(r.Scratch, "src")
 	mk := func(files map[string][]byte) {
 		_ = os.RemoveAll(src)
@@ -143,9 +153,21 @@ func TestVerif_C14(t *testing.T) {
 	readers = append(readers, verifC14ExtraReaders...)
 	bound := vh.Pick(r, 2, 3)
 	execNo := 0
+	type scenario struct {
+		rd     verifC14Reader
+		faulty bool // the upload of one of the writer's index files may fail (every index counts as full: it is uploaded right after its pack)
+	}
+	var scens []scenario
 	for _, rd := range readers {
-		rd := rd
+		scens = append(scens, scenario{rd, false})
+	}
+	scens = append(scens, scenario{readers[1], true}, scenario{readers[2], true}) // (not restore: its error path leaves a progress goroutine behind, which a bubble cannot end with)
+	for _, scn := range scens {
+		rd, faulty := scn.rd, scn.faulty
 		name := "backup||" + rd.name
+		if faulty {
+			name = "backup(index-upload-may-fail)||" + rd.name
+		}
 		sc := xplore.Scenario{
 			Start: func(x *xplore.Exec) {
 				execNo++
@@ -154,6 +176,26 @@ func TestVerif_C14(t *testing.T) {
 				st.restore = detrand.Install(7)
 				ungated := map[backend.FileType]bool{backend.LockFile: true}
 				wbe := &gatebe.Backend{S: st.store, Proc: "writer", Conns: 2, AtomicReplace: true, X: func() *xplore.Exec { return x }, Ungated: ungated}
+				if faulty {
+					// preliminary index files are written during the backup (in real repositories after 50000
+					// blobs or 10 minutes); one of the writer's index uploads may fail
+					wbe.Conns = 1 // uploads one after the other: the k-th index upload is the same file in every replay
+					oldFull := index.Full
+					index.Full = func(*index.Index) bool { return true }
+					fullRestore := st.restore
+					st.restore = func() { index.Full = oldFull; fullRestore() }
+					wbe.Alts = func(op *gatebe.Op) []string {
+						if op.Kind == "Save" && op.Key.Type == backend.IndexFile {
+							return []string{"ok", "err"}
+						}
+						return []string{"ok"}
+					}
+					wbe.Observe = func(op *gatebe.Op, ans string, err error) {
+						if ans == "err" {
+							st.faulted = true
+						}
+					}
+				}
 				rbe := &gatebe.Backend{S: st.store, Proc: "reader", Conns: 2, AtomicReplace: true, X: func() *xplore.Exec { return x }, Ungated: ungated}
 				wopts := verifGopts(t, filepath.Join(r.Scratch, "w"), wbe, oracle.Password)
 				ropts := verifGopts(t, filepath.Join(r.Scratch, "r"), rbe, oracle.Password)
@@ -200,7 +242,7 @@ func TestVerif_C14(t *testing.T) {
 				vx.Violation(r, name, x, "C14|deadlock|"+name, "writer/reader blocked forever", nil)
 				return
 			}
-			if st.wdone && st.werr != nil {
+			if st.wdone && st.werr != nil && !st.faulted {
 				vx.Violation(r, name, x, "C14|writer-failed|"+name, fmt.Sprintf("the backup failed although no fault was injected: %v", st.werr), nil)
 			}
 			if st.rdone && st.rerr != nil {
